@@ -42,6 +42,16 @@ def _by_stream(run):
 
 
 def oracle(scn, obs, ref, schedule):
+    out = _oracle(scn, obs, ref, schedule)
+    if out:
+        # diagnosis only: was a command executing when the interruption took effect (the known in-flight defect)?
+        infl = engine.inflight_commands(obs)
+        if infl:
+            out = [(f"{rule}:inflight-{infl[0]}", detail) for rule, detail in out]
+    return out
+
+
+def _oracle(scn, obs, ref, schedule):
     from bluesky.utils import RunEngineInterrupted
 
     out = []
